@@ -1,13 +1,15 @@
 (* C09, wiring level — the acceptor used by the nestw family (the same sub-graph body wired inlined and through
    nested_<G> at depth 1 and 2 by the public Wiring API) is sound and complete for "the outer output stream of
-   every nested variant equals that of the inlined one". *)
+   every nested variant equals that of the inlined one" - at root level (variants 0, 1, 2) and inside a switch_
+   branch, where the nested node starts mid-run (variants 3, 4). *)
 Require Import Base Nestw NestwFacts.
 
 Theorem wire_acceptor_sound_and_complete :
   forall w, run_nestw w = [[1]] <->
     let out := after_marker w in
     completed 0 out = true /\ completed 1 out = true /\ completed 2 out = true
-    /\ stream_of 1 out = stream_of 0 out /\ stream_of 2 out = stream_of 0 out.
+    /\ stream_of 1 out = stream_of 0 out /\ stream_of 2 out = stream_of 0 out
+    /\ completed 3 out = completed 4 out /\ stream_of 4 out = stream_of 3 out.
 Proof. intros w. rewrite run_nestw_spec. apply accept_spec. Qed.
 Print Assumptions wire_acceptor_sound_and_complete.
 
